@@ -25,12 +25,14 @@ def tasks(tier):
           W('enough_covered.8_2', 'c18_enough_covered', nseq=8, nsub=2),
           W('enough_covered.10_6', 'c18_enough_covered', nseq=10, nsub=6),
           W('projection_matrix.4_2', 'c18_projection_matrix', nseq=4, nsub=2),
-          W('no_call.2', 'c18_no_call', nseq=2), W('no_call.4', 'c18_no_call', nseq=4), W('part_inbreeding', 'c18_part_inbreeding'), W('subsample_draw', 'c18_subsample_draw')]
+          W('no_call.2', 'c18_no_call', nseq=2), W('no_call.4', 'c18_no_call', nseq=4), W('calling_error_matrix.2', 'c18_calling_error_matrix', nsub=2), W('calling_error_matrix.4', 'c18_calling_error_matrix', nsub=4),
+          W('part_inbreeding', 'c18_part_inbreeding'), W('subsample_draw', 'c18_subsample_draw')]
     if tier == 'thorough':
         ts += [W('projection_inbreeding.n5_k4', 'c18_projection_inbreeding', n=5, k=4),
                W('projection_inbreeding.n6_k2', 'c18_projection_inbreeding', n=6, k=2),
                W('enough_covered.12_5', 'c18_enough_covered', nseq=12, nsub=5),
-               W('projection_matrix.6_4', 'c18_projection_matrix', nseq=6, nsub=4)]
+               W('projection_matrix.6_4', 'c18_projection_matrix', nseq=6, nsub=4),
+               W('calling_error_matrix.6', 'c18_calling_error_matrix', nsub=6)]
     return ts + bounded_tasks('C18', tier)
 
 
@@ -43,6 +45,6 @@ MANIFEST_ENTRY = dict(
     category='other',
     engine='bounded',
     technique='sidecar contracts on the real functions: wiring / closed-form obligations from the AST discharged by z3 and the ring normaliser where the functions are within reach; bounded run-time contracts with independent oracles for the rest (never counted as proved)',
-    text='Discharged from the real source on every run (all values, stated small shapes): split_list_by_lengths, projection_inbreeding (subsets with multiplicity), probability_enough_individuals_covered (binomial tail), projection_matrix rows (F=0 / F!=0), probability_of_no_call_1D_GATK_multisample closed form + definedness (no division by a quantity that can vanish), part_inbreeding_probability (multinomial x beta-binomial weights), memo keys, per-locus permutation call site. Bounded run-time contracts (never counted as proved): Partition enumeration exhaustively for n<=10, row-stochastic matrices, no-call bounds, deep-coverage limit, simulated regime.',
+    text='Discharged from the real source on every run (all values, stated small shapes): split_list_by_lengths, projection_inbreeding (subsets with multiplicity), probability_enough_individuals_covered (binomial tail), projection_matrix rows (F=0 / F!=0), probability_of_no_call_1D_GATK_multisample closed form + definedness (no division by a quantity that can vanish), part_inbreeding_probability (multinomial x beta-binomial weights), calling_error_matrix entry-wise = partition weight x binomial miscall x fair split of the miscalls, rows summing to the partition weights, miscall probability in [0,1] (nsub = 2, 4; partitions by contract, scipy binom.pmf by its documented sum), memo keys, per-locus permutation call site. Bounded run-time contracts (never counted as proved): Partition enumeration exhaustively for n<=10, row-stochastic matrices, no-call bounds, deep-coverage limit, simulated regime.',
     note='bounded: see coverage.bounded.drivers[].bound in the evidence file for the exact domain of every driver',
 )
